@@ -91,3 +91,11 @@ package config
 //@   ensures result != 0 ==> len(typed(str_split(searchHostname, "."), "[]string")) == len(typed(str_split(configHostname, "."), "[]string"))
 //@   ensures result != 0 ==> forall_int(k, typed(str_split(configHostname, "."), "[]string")[k], 0 <= k && k < len(typed(str_split(configHostname, "."), "[]string")) ==> typed(str_split(configHostname, "."), "[]string")[k] == "*" || typed(str_split(configHostname, "."), "[]string")[k] == typed(str_split(searchHostname, "."), "[]string")[k])
 //@   loop 1 invariant forall_int(k, configHost[k], 0 <= k && k <= rangeindex ==> configHost[k] == "*" || configHost[k] == searchHost[k])
+
+// A configured path matches a URL path only element by element: every element
+// of the configured path equals the element at the same place of the searched
+// path, or - only for the last searched element of a default LFS URL - equals
+// it without its ".git" suffix.  A mere common prefix of names never matches.
+//@ func comparePaths
+//@   props C17 C10
+//@   loop 1 iter score > iter(score) ==> searchPath[iter(rangeindex) + 1] == element || (len(searchPath[iter(rangeindex) + 1]) >= 4 && searchPath[iter(rangeindex) + 1][0:len(searchPath[iter(rangeindex) + 1])-4] == element)
